@@ -29,7 +29,8 @@ template void fp_inverse<embedded_pairing::bls12_381::Fr>(embedded_pairing::bls1
 namespace jpv_driver {
 using namespace embedded_pairing::bls12_381;
 using embedded_pairing::core::BigInt;
-void inst(Fr& r, const Fr& a, Fq& q, const Fq& b, BigInt<256>& i256, BigInt<384>& i384, G1& g1, G2& g2, const G1Affine& g1a, const G2Affine& g2a, const BigInt<256>& k) {
+void inst(Fr& r, const Fr& a, Fq& q, const Fq& b, BigInt<256>& i256, BigInt<384>& i384, G1& g1, G2& g2, const G1Affine& g1a, const G2Affine& g2a, const BigInt<256>& k, Fq12& gt) {
+    gt.exponentiate_gt_nodiv(gt, k);
     r.add(a, a); r.subtract(a, a); r.multiply2(a); r.negate(a); r.multiply(a, a); r.square(a);
     r.set(i256); r.get(i256); r.into_montgomery_form(); (void) r.is_one(); (void) r.legendre();
     q.set(i384); q.get(i384); (void) q.is_one(); (void) q.legendre();
